@@ -90,22 +90,31 @@ theorem raises_iff (cfg : Cfg) (m : Flat) : encode cfg m = none ↔ m.classes.al
   · simp [h]
   · simp [h]
 
-/-- Finding C25-F1: the `elsewhen` branches of a when-equation leave no trace — two different flat models,
-    one XML. -/
-theorem elsewhen_branches_lost (cfg : Cfg) :
+/-- With the proposed check on `elsewhen` (`rejectElse`), whatever is generated mirrors *every* equation of
+    the flat model exactly: nothing is lost. -/
+theorem rejecting_elsewhen_loses_nothing (cfg : Cfg) (hc : cfg.rejectElse = true) (m : Flat) (x : Xml)
+    (h : encode cfg m = some x) :
+    ∃ m', decode x = some m' ∧ m'.classes.map (·.eqs) = m.classes.map (·.eqs) :=
+  ⟨kept m, decode_encode cfg m x h, equations_recovered_exactly m (noElse_of_encode cfg hc m x h)⟩
+
+example : Cfg.fixed.rejectElse = true := rfl
+
+/-- Finding C25-F1: without that check the `elsewhen` branches of a when-equation leave no trace — two
+    different flat models, one XML. -/
+theorem elsewhen_branches_lost (cfg : Cfg) (hc : cfg.rejectElse = false) :
     let q₁ := Eqn.when (.ref "a") [.equal (.ref "d") (.lit "1")] [] []
     let q₂ := Eqn.when (.ref "a") [.equal (.ref "d") (.lit "1")] [.ref "b"] [.equal (.ref "d") (.lit "2")]
     let m₁ : Flat := ⟨[⟨"M", [], [q₁]⟩]⟩
     let m₂ : Flat := ⟨[⟨"M", [], [q₂]⟩]⟩
     encode cfg m₁ = encode cfg m₂ ∧ encode cfg m₁ ≠ none ∧ noElse m₂ = false := by
   refine ⟨?_, ?_, rfl⟩ <;>
-    simp [encode, okCls, okQs, okQ, okE, okEs, enc, encCls, encQs, encQ]
+    simp [encode, okCls, okQs, okQ, okE, okEs, enc, encCls, encQs, encQ, hc]
 
 /-- Finding C25-F2: on the tree as it is a signed or computed `start` makes generation raise; with attribute
     values built from the expression's element it is mirrored like any other expression. -/
 theorem signed_start_raises_as_is :
     let m : Flat := ⟨[⟨"M", [⟨"x", "Real", [], some (.op "-" [.lit "1"]), none, false⟩], []⟩]⟩
-    encode Cfg.asIs m = none ∧ encode Cfg.exprs m ≠ none := by
-  constructor <;> simp [encode, okCls, okVar, okAttr, okQs, okE, okEs, Cfg.asIs, Cfg.exprs]
+    encode Cfg.asIs m = none ∧ encode Cfg.fixed m ≠ none := by
+  constructor <;> simp [encode, okCls, okVar, okAttr, okQs, okE, okEs, Cfg.asIs, Cfg.fixed]
 
 end PymocaVerif.XmlTree
